@@ -10,6 +10,15 @@ RULE = ('TLC-enumerated universe circuits over all 18 types (non-topological sto
 ASSUMPTIONS = ['TLC GateTT as the reference semantics', 'bounded universe + random beyond']
 
 
+def design(tier, seed):
+    from .. import tlc
+
+    r = tlc.run_model('PassLemmas', 'PassLemmas.cfg', workers=16, tag='C03-lemma', xmx='6g')
+    tlc.cleanup(r['workdir'])
+    return {'states': r['distinct'], 'transitions': r['generated'],
+            'runs': [f'PassLemmas (algorithm models RRG/RRGI/MUO/MDG/MEG of Passes.tla satisfy the C03 and C18 predicates on every circuit of U(2,2,10 types,3) x 3 output choices): {r["distinct"]} states, {r["wall_s"]:.1f}s']}
+
+
 def sources(tier, seed, ctx):
     circs, rng = P.circuit_sources(tier, seed, ctx, 3, 5000, 60000, 500, 8000)
     srcs = []
